@@ -27,16 +27,24 @@ pub fn main_entry(hooks: bool) {
             Ok(c) => println!("conformance ok: {c:?}"),
             Err(e) => machinery(&e),
         },
+        "gen-polkadot" => {
+            // debugging aid: hash of de-duplicated + generated Polkadot module
+            let mut r = run::polkadot_registry();
+            scale_typegen::utils::ensure_unique_type_paths(&mut r).unwrap();
+            let paths: Vec<String> = r.types.iter().map(|t| t.ty.path.segments.join("::")).collect();
+            let spec = settings::SettingsSpec::faithful();
+            match run::generate(&r, &spec.build()) {
+                run::GenOutcome::Ok { tokens } => println!("tokens {} hash {:016x} paths {:016x}", tokens.len(), engine::hash64(&tokens), engine::hash64(&paths)),
+                other => println!("{other:?}"),
+            }
+        }
         "check" => {
             let id = args.get(1).cloned().unwrap_or_default();
             let (tier, seed) = engine::tier_and_seed(&args);
             if let Err(e) = corpus::check_conformance() {
                 machinery(&e);
             }
-            let code = match id.as_str() {
-                "C01" => checks::c01::run(&tier, seed),
-                other => machinery(&format!("unknown property {other}")),
-            };
+            let code = checks::run_check(&id, &tier, seed).unwrap_or_else(|| machinery(&format!("unknown property {id}")));
             std::process::exit(code)
         }
         "replay" => {
@@ -45,20 +53,12 @@ pub fn main_entry(hooks: bool) {
             let v: Value = serde_json::from_str(&text).unwrap_or_else(|e| machinery(&format!("{path}: {e}")));
             let prop = v["property"].as_str().unwrap_or("").to_string();
             let replay = &v["replay"];
-            let vs = match replay["check"].as_str().unwrap_or("") {
-                "C01" => {
-                    let case: drivers::Case = serde_json::from_value(replay["case"].clone())
-                        .unwrap_or_else(|e| machinery(&format!("case: {e}")));
-                    // determinism of the replay itself
-                    let a = checks::c01::replay(&case);
-                    let b = checks::c01::replay(&case);
-                    if a.iter().map(|x| &x.sig).collect::<Vec<_>>() != b.iter().map(|x| &x.sig).collect::<Vec<_>>() {
-                        machinery("replay is not deterministic");
-                    }
-                    a
-                }
-                other => machinery(&format!("unknown replay kind {other}")),
-            };
+            let sigs = |v: &Vec<engine::Violation>| v.iter().map(|x| x.sig.clone()).collect::<Vec<_>>();
+            let vs = checks::replay(replay).unwrap_or_else(|e| machinery(&e));
+            let again = checks::replay(replay).unwrap_or_else(|e| machinery(&e));
+            if sigs(&vs) != sigs(&again) {
+                machinery("replay is not deterministic");
+            }
             if vs.is_empty() {
                 println!("replay: no violation (property {prop} holds on this case)");
                 std::process::exit(0)
